@@ -352,3 +352,21 @@ fn c19_double_width_text_wraps_character_by_character() {
     pb.set_message("x");
     assert_eq!(term.contents(), "x");
 }
+
+/// C04/C02: under bottom alignment a visibly finished, dropped bar keeps its final line although
+/// blank padding lines sit above it.
+#[test]
+fn c04_bottom_alignment_keeps_finished_bar() {
+    let term = InMemoryTerm::new(12, 20);
+    let mp = multi(&term);
+    mp.println("log").unwrap();
+    mp.set_alignment(MultiProgressAlignment::Bottom);
+    let a = member(&mp, "a", ProgressFinish::AndLeave);
+    let b = member(&mp, "b", ProgressFinish::AndLeave);
+    a.tick();
+    b.tick();
+    b.finish_and_clear();
+    drop(a);
+    b.tick();
+    assert!(term.contents().contains("a:"), "{:?}", term.contents());
+}
